@@ -7,6 +7,7 @@ import (
 	"encoding/json"
 	"fmt"
 	"io"
+	"math/big"
 	"os"
 	"os/exec"
 	"strconv"
@@ -35,6 +36,87 @@ var propNames = []string{"a", "b", "ab"}
 
 func scalarConst(t *rapid.T) any {
 	return rapid.SampledFrom([]any{0, 1, 2, 1.5, "a", "ab", true, false, nil}).Draw(t, "const")
+}
+
+// compositeConsts: const/enum values with structure (objects inside arrays, nesting, empties):
+// equality with such a value is exact in JSON Schema - no extra or missing member anywhere.
+var compositeConsts = []string{`[{"a":1}]`, `{"a":1}`, `[1,"a"]`, `[]`, `{}`, `{"a":{"b":null}}`, `[[1]]`, `[{"a":1},{"b":2}]`, `{"a":[1,2]}`, `[{}]`, `{"a":1,"b":"a"}`, `[null]`, `[1,{"ab":[]}]`}
+
+func constValue(t *rapid.T, rootish bool) any {
+	if rapid.IntRange(0, 2).Draw(t, "cc") == 0 {
+		v, _ := decode([]byte(rapid.SampledFrom(compositeConsts).Draw(t, "cconst")))
+		if _, obj := v.(map[string]any); obj && rootish && excl {
+			// known finding F70: an object-valued const/enum that applies to the root instance becomes a
+			// closed struct embedded at file level, whose closedness is not enforced
+			return scalarConst(t)
+		}
+		return v
+	}
+	return scalarConst(t)
+}
+
+// tightenedByFloat64 reports whether some numeric bound of the schema becomes stricter when it is
+// rounded to a float64 and printed with Go's shortest formatting, which is how Generate emits bounds
+// (known finding F80).
+func tightenedByFloat64(s any) bool {
+	switch x := s.(type) {
+	case map[string]any:
+		for k, v := range x {
+			n, isNum := v.(json.Number)
+			switch {
+			case isNum && (k == "minimum" || k == "exclusiveMinimum" || k == "maximum" || k == "exclusiveMaximum"):
+				exact, ok := new(big.Rat).SetString(string(n))
+				f, err := n.Float64()
+				if !ok || err != nil {
+					return true
+				}
+				printed, ok := new(big.Rat).SetString(fmt.Sprint(f))
+				if !ok {
+					return true
+				}
+				c := printed.Cmp(exact)
+				if (strings.HasSuffix(k, "inimum") && c > 0) || (strings.HasSuffix(k, "aximum") && c < 0) {
+					return true
+				}
+			case tightenedByFloat64(v):
+				return true
+			}
+		}
+	case []any:
+		for _, v := range x {
+			if tightenedByFloat64(v) {
+				return true
+			}
+		}
+	}
+	return false
+}
+
+// bigBounds: bounds at the edges of int64, float64's integer range and beyond
+var bigBounds = []string{"9223372036854775807", "9223372036854775808", "-9223372036854775808", "-9223372036854775809", "9007199254740993", "18446744073709551615", "1e19", "4294967296", "-1"}
+
+func bound(t *rapid.T, small []any, label string) any {
+	if rapid.IntRange(0, 5).Draw(t, label+"big") == 0 {
+		return json.Number(rapid.SampledFrom(bigBounds).Draw(t, label+"bb"))
+	}
+	return rapid.SampledFrom(small).Draw(t, label)
+}
+
+var typeSets = [][]string{{"null"}, {"boolean"}, {"integer"}, {"number"}, {"string"}, {"array"}, {"object"}, {"string", "number"}, {"number", "null"}, {"boolean", "object"}, {"integer", "string"}, {"null", "array"}, {"string", "boolean"}}
+
+// typeOnlyBranches: three or four branches that consist of a type keyword only (the importer
+// special-cases them), overlapping or not, adjacent or not
+func typeOnlyBranches(t *rapid.T) []any {
+	var bs []any
+	for i := 0; i < rapid.IntRange(3, 4).Draw(t, "ntb"); i++ {
+		ts := rapid.SampledFrom(typeSets).Draw(t, "tset")
+		if len(ts) == 1 {
+			bs = append(bs, J{"type": ts[0]})
+		} else {
+			bs = append(bs, J{"type": []any{ts[0], ts[1]}})
+		}
+	}
+	return bs
 }
 
 func tier() int {
@@ -69,15 +151,21 @@ func schemaR(t *rapid.T, depth int, defs []string, rootish bool) any {
 			}
 			s["type"] = []any{t1, t2}
 		case 2:
-			s["enum"] = []any{scalarConst(t), scalarConst(t)}
+			e1, e2 := constValue(t, rootish), constValue(t, rootish)
+			if excl && typeOf(e1) == typeOf(e2) && (typeOf(e1) == "array" || typeOf(e1) == "object") {
+				// known finding F81: an enum with two object-bearing values of one kind leaves an instance
+				// that lacks a member of the other value unresolved (required field of the other disjunct)
+				e2 = scalarConst(t)
+			}
+			s["enum"] = []any{e1, e2}
 		case 3:
-			s["const"] = scalarConst(t)
+			s["const"] = constValue(t, rootish)
 		case 4:
-			s["minimum"] = rapid.SampledFrom([]any{0, 1, 2, 1.5}).Draw(t, "min")
+			s["minimum"] = bound(t, []any{0, 1, 2, 1.5}, "min")
 		case 5:
-			s["maximum"] = rapid.SampledFrom([]any{0, 1, 2, 1.5}).Draw(t, "max")
+			s["maximum"] = bound(t, []any{0, 1, 2, 1.5}, "max")
 		case 6:
-			s[rapid.SampledFrom([]string{"exclusiveMinimum", "exclusiveMaximum"}).Draw(t, "xk")] = rapid.SampledFrom([]any{0, 1, 2}).Draw(t, "xmin")
+			s[rapid.SampledFrom([]string{"exclusiveMinimum", "exclusiveMaximum"}).Draw(t, "xk")] = bound(t, []any{0, 1, 2}, "xmin")
 		case 7:
 			s["minLength"] = rapid.IntRange(0, 2).Draw(t, "minl")
 		case 8:
@@ -111,15 +199,22 @@ func schemaR(t *rapid.T, depth int, defs []string, rootish bool) any {
 		case 17:
 			s["uniqueItems"] = true
 		case 18:
-			s[rapid.SampledFrom([]string{"allOf", "anyOf", "oneOf"}).Draw(t, "comb")] = []any{schemaR(t, depth-1, defs, rootish), schemaR(t, depth-1, defs, rootish)}
+			comb := rapid.SampledFrom([]string{"allOf", "anyOf", "oneOf"}).Draw(t, "comb")
+			if comb != "allOf" && rapid.IntRange(0, 2).Draw(t, "typeonly") == 0 {
+				s[comb] = typeOnlyBranches(t)
+			} else {
+				s[comb] = []any{schemaR(t, depth-1, defs, rootish), schemaR(t, depth-1, defs, rootish)}
+			}
 		case 19:
 			s["not"] = schemaR(t, depth-1, defs, rootish)
 		case 20:
 			cs := schema(t, depth-1, defs)
-			if m, ok := cs.(J); ok && excl {
-				// known finding F71: minProperties/maxProperties under contains is not enforced ([{}] passes contains:{minProperties:1})
-				delete(m, "minProperties")
-				delete(m, "maxProperties")
+			if excl {
+				// known finding F71: list.MatchN counts an element whose check ends in an incomplete error
+				// as a match, so below contains (at any depth) minProperties/maxProperties, required and
+				// object-valued const/enum (imported with required fields) are not enforced:
+				// [{}] passes contains:{minProperties:1} and contains:{anyOf:[{required:["b"]}]}
+				stripIncompleteProne(cs)
 			}
 			s["contains"] = cs
 		case 21:
@@ -141,6 +236,38 @@ func schemaR(t *rapid.T, depth int, defs []string, rootish bool) any {
 				s["else"] = schema(t, depth-1, defs)
 			}
 		}
+	}
+	if excl && rootish {
+		// known finding F70 (closedness of what is embedded at file level is not enforced), second
+		// form: a const/enum value that contains an object anywhere, applied to the root instance next
+		// to any other keyword, e.g. {"enum":[[{}],false],"items":{}} accepts [{"c":1}]. Such values
+		// are kept only as the sole keyword of the root schema.
+		alone := depth == 2
+		for k := range s {
+			if k != "const" && k != "enum" {
+				alone = false
+			}
+		}
+		if !alone {
+			if containsObject(s["const"]) {
+				s["const"] = []any{1, "a"}
+			}
+			if e, ok := s["enum"].([]any); ok {
+				for i := range e {
+					if containsObject(e[i]) {
+						e[i] = i
+					}
+				}
+			}
+		}
+	}
+	if _, pp := s["patternProperties"]; excl && pp {
+		// known findings F70/F27: pattern constraints are emitted inside an embedded literal, and
+		// closedness of a field that such a pattern also matches is not enforced
+		// ({"patternProperties":{"^a":{}},"properties":{"ab":{"additionalProperties":false}}} accepts
+		// {"ab":{"x":0}}): next to patternProperties the sibling subschemas close nothing
+		stripClosed(s["properties"])
+		stripClosed(s["additionalProperties"])
 	}
 	if excl {
 		// known finding F29: required + additionalProperties:false without properties accepts the required name
@@ -206,11 +333,176 @@ func gen(t *rapid.T) Case {
 	root["$schema"] = "https://json-schema.org/draft/2020-12/schema"
 	sb, _ := json.Marshal(root)
 	c := Case{Schema: sb}
+	var consts []any
+	collectConsts(root, &consts)
 	for i := 0; i < 8; i++ {
-		ib, _ := json.Marshal(instance(t, 2))
+		var in any
+		if len(consts) > 0 && rapid.IntRange(0, 2).Draw(t, "fromconst") == 0 {
+			in = mutate(t, clone(rapid.SampledFrom(consts).Draw(t, "constinst")))
+		} else {
+			in = instance(t, 2)
+		}
+		ib, _ := json.Marshal(in)
 		c.Instances = append(c.Instances, ib)
 	}
 	return c
+}
+
+// collectConsts gathers the const/enum values and the numeric bounds of a schema: instances are
+// biased towards them and their neighbours.
+func collectConsts(s any, out *[]any) {
+	switch x := s.(type) {
+	case J:
+		for k, v := range x {
+			switch k {
+			case "const":
+				*out = append(*out, v)
+			case "enum":
+				*out = append(*out, v.([]any)...)
+			case "minimum", "maximum", "exclusiveMinimum", "exclusiveMaximum":
+				*out = append(*out, v)
+			default:
+				collectConsts(v, out)
+			}
+		}
+	case []any:
+		for _, v := range x {
+			collectConsts(v, out)
+		}
+	}
+}
+
+func containsObject(x any) bool {
+	switch v := x.(type) {
+	case map[string]any:
+		return true
+	case []any:
+		for _, e := range v {
+			if containsObject(e) {
+				return true
+			}
+		}
+	}
+	return false
+}
+
+// stripClosed removes everything that closes a struct from the schema x, at any depth.
+func stripClosed(x any) {
+	switch v := x.(type) {
+	case map[string]any:
+		if ap, ok := v["additionalProperties"].(bool); ok && !ap {
+			delete(v, "additionalProperties")
+		}
+		if containsObject(v["const"]) {
+			v["const"] = 1
+		}
+		if e, ok := v["enum"].([]any); ok {
+			for i := range e {
+				if containsObject(e[i]) {
+					e[i] = i
+				}
+			}
+		}
+		for _, sub := range v {
+			stripClosed(sub)
+		}
+	case []any:
+		for _, sub := range v {
+			stripClosed(sub)
+		}
+	}
+}
+
+func stripIncompleteProne(x any) {
+	switch v := x.(type) {
+	case map[string]any:
+		delete(v, "minProperties")
+		delete(v, "maxProperties")
+		delete(v, "required")
+		if containsObject(v["const"]) {
+			v["const"] = 1
+		}
+		if e, ok := v["enum"].([]any); ok {
+			for i := range e {
+				if containsObject(e[i]) {
+					e[i] = i
+				}
+			}
+		}
+		for _, sub := range v {
+			stripIncompleteProne(sub)
+		}
+	case []any:
+		for _, sub := range v {
+			stripIncompleteProne(sub)
+		}
+	}
+}
+
+func clone(x any) any {
+	b, _ := json.Marshal(x)
+	v, _ := decode(b)
+	return v
+}
+
+// mutate returns x or a near miss of it: one member added, removed or changed somewhere, an
+// element appended, a number moved by one.
+func mutate(t *rapid.T, x any) any {
+	if n, ok := x.(json.Number); ok {
+		// integral numbers are spelled as integers: the importer distinguishes 1e19 and 1.0 from
+		// integers where JSON Schema does not (documented deviation, finding F13)
+		if r, ok := new(big.Rat).SetString(string(n)); ok && r.IsInt() {
+			x = json.Number(r.Num().String())
+		}
+	}
+	switch rapid.IntRange(0, 3).Draw(t, "mut") {
+	case 0:
+		return x
+	}
+	switch v := x.(type) {
+	case map[string]any:
+		switch k := rapid.IntRange(0, 2).Draw(t, "omut"); {
+		case k == 0:
+			v[rapid.SampledFrom([]string{"c", "x", "ab"}).Draw(t, "newkey")] = scalarConst(t)
+		case k == 1 && len(v) > 0:
+			for key := range v {
+				if len(v) == 1 || rapid.Bool().Draw(t, "del-"+key) {
+					delete(v, key)
+					break
+				}
+			}
+		default:
+			for key := range v {
+				v[key] = mutate(t, v[key])
+				break
+			}
+		}
+		return v
+	case []any:
+		switch k := rapid.IntRange(0, 2).Draw(t, "lmut"); {
+		case k == 0:
+			return append(v, scalarConst(t))
+		case k == 1 && len(v) > 0:
+			return v[:len(v)-1]
+		case len(v) > 0:
+			i := rapid.IntRange(0, len(v)-1).Draw(t, "li")
+			v[i] = mutate(t, v[i])
+		}
+		return v
+	case json.Number:
+		r, ok := new(big.Rat).SetString(string(v))
+		if !ok {
+			return v
+		}
+		d := rapid.SampledFrom([]int64{-1, 1, -2, 2}).Draw(t, "delta")
+		r.Add(r, big.NewRat(d, 1))
+		if r.IsInt() {
+			return json.Number(r.Num().String())
+		}
+		f, _ := r.Float64()
+		return f
+	}
+	return scalarConst(t)
 }
 
 func decode(b []byte) (any, error) {
@@ -340,6 +632,10 @@ func run(c Case) (res evid.Result) {
 	if excl && (bytes.Contains(c.Schema, []byte(`"not"`)) || bytes.Contains(c.Schema, []byte(`"oneOf"`)) || bytes.Contains(c.Schema, []byte(`"if"`))) {
 		// known finding F68: Generate approximates permissively, which under not/oneOf/if turns into rejecting valid instances
 		res.Excluded = "NoRegenerationUnderNegation(F68)"
+	} else if excl && tightenedByFloat64(sch) {
+		// known finding F80: Generate emits numeric bounds through float64 (16-17 significant digits), so a
+		// minimum just below a float64 value (2^63-1) comes back larger and rejects valid instances
+		res.Excluded = "NoRegenerationOfBoundsTightenedByFloat64(F80)"
 	} else if excl && hasDefs {
 		// known finding F65: for a value with definitions next to an embedded non-struct value, Generate adds
 		// "type":"object" at the root and so rejects the non-object alternatives
